@@ -370,6 +370,26 @@ func (g *G) opRemove(ord int) {
 	}
 }
 
+// opMine: the keeper's mine action on a space in use (a plotted one starts mining at once; whatever state a space is in, it
+// stays indexed and is re-used by the next configuration)
+func (g *G) opMine(ord int) {
+	if g.sk == nil {
+		return
+	}
+	for _, s := range g.indexed() {
+		if s.ord == ord {
+			sid := fmt.Sprintf("%x-%d", keyFor(ord).PubKey().SerializeCompressed(), s.bl)
+			err := g.sk.ActOnWorkSpace(sid, engine.Mine)
+			r := "ok"
+			if err != nil {
+				r = "err:mine"
+			}
+			g.h.Emit(fmt.Sprintf("mine %d", ord), r+" "+g.stateStr())
+			return
+		}
+	}
+}
+
 // opDelete: the keeper's delete action on an indexed space (index, selection and files go)
 func (g *G) opDelete(ord int) {
 	if g.sk == nil {
@@ -474,6 +494,9 @@ func (g *G) exec(t []string) {
 	case "delete":
 		o, _ := strconv.Atoi(t[1])
 		g.opDelete(o)
+	case "mine":
+		o, _ := strconv.Atoi(t[1])
+		g.opMine(o)
 	case "remove":
 		g.opRemove(atoi(t[1]))
 	case "restartcheck":
@@ -609,8 +632,10 @@ func (g *G) generate() {
 			g.opApiDirs(as)
 		case 8:
 			if idx := g.indexed(); len(idx) > 0 {
-				if r.Intn(3) == 0 {
+				if x := r.Intn(4); x == 0 {
 					g.opDelete(idx[r.Intn(len(idx))].ord)
+				} else if x == 1 {
+					g.opMine(idx[r.Intn(len(idx))].ord)
 				} else {
 					g.opRemove(idx[r.Intn(len(idx))].ord)
 				}
